@@ -18,7 +18,9 @@ VAM just sent, is_first_vam coherent with it (vam-min); clustering gate before e
 sent is the one filled from this report and the device data (gdt); an elapsed-time trigger with bound <= T_GenVamMax
 depending only on gate, not-first and a report timestamp - possibly split over several send sites that together cover
 that condition (vam-max); LF container in the first VAM, after >= 2 s or with a cluster operation, timer restarted
-exactly when attached, applied to every VAM before encoding (vam-lf).
+exactly when attached, applied to every VAM before encoding (vam-lf); the references the dynamics triggers compare with are
+the values just sent converted back to the report's unit: speedValue / 100, heading value / 10, latitude / longitude / 10^7
+(vam-min reference-unit).
 Not decided: the bounds and "at the first check at which" as run properties, wall-clock time.time() of the VAM LF
 timer, unit consistency of the VAM 4 m trigger.
 
